@@ -5,7 +5,7 @@ PATCH=$(readlink -f "$1"); shift
 WT=/tmp/wt_try_$$
 git -C /repo worktree add -q "$WT" HEAD
 trap 'git -C /repo worktree remove --force "$WT" >/dev/null 2>&1 || true' EXIT
-git -C "$WT" apply "$PATCH"
+if ! git -C "$WT" apply "$PATCH" 2>/dev/null; then echo "PATCH-FAILED $PATCH does not apply to HEAD"; exit 3; fi
 cd /verif
 for c in "$@"; do
   echo "=== $c against $PATCH"
